@@ -541,6 +541,8 @@ def iter_branch_paths(ctx, first_kinds=None):
             g = it.invoke(f, [dst, branch, getc, getf], {}, fi.node)
             it.run_gen(g)
             pr.result = dst
+            # the statements handed to the driver (converted, hence validated), placed or not
+            pr.extra["yielded"] = [v for kind, v, _lw in it.yields if kind == "stmt"]
 
         return run_protected(it, pr, body)
 
@@ -597,8 +599,10 @@ def rule_ib(ctx):
         seq = [e for e in evs if e.kind == "S"]
         got = [e.node.src for e in seq]
         bad = None
-        if len(got) != n_keep or any(a is not b for a, b in zip(got, stmts[:n_keep])):
-            bad = ("order", f"the lowered statements are {[getattr(g, 'index', '?') for g in got]}, expected the first {n_keep} in source order, each once")
+        # dead statements after an unconditional interrupt may be left out or kept (kept ones sit under
+        # the guard of the interrupt's flag and never run): both are right for the control flow
+        if len(got) not in (n_keep, 3) or any(a is not b for a, b in zip(got, stmts)):
+            bad = ("order", f"the lowered statements are {[getattr(g, 'index', '?') for g in got]}, expected the first {n_keep} (or all) in source order, each once")
         else:
             for i, e in enumerate(seq):
                 depth = len(e.guards)
